@@ -3,10 +3,18 @@ use crate::Opts;
 
 pub mod common;
 pub mod c06;
+pub mod pipes;
 
 pub fn dispatch(opts: &Opts) -> Report {
     match opts.prop.as_str() {
         "C06" => c06::run(opts),
+        "C01" => pipes::c01(opts),
+        "C07" => pipes::c07(opts),
+        "C08" => pipes::c08(opts),
+        "C09" => pipes::c09(opts),
+        "C14" => pipes::c14(opts),
+        "C15" => pipes::c15(opts),
+        "C16" => pipes::c16(opts),
         other => { eprintln!("no harness routine for {other}"); std::process::exit(2); }
     }
 }
